@@ -338,10 +338,10 @@ def c03(ctx):
         # measurement aid (seeded/REPO_TRACES.md): only the traces of the repository's own tests, all traced packages
         ctx.repo_test_traces("repository-test-traces", ["./storage/table/", "./storage/", "./regattaserver/", "./replication/", "./storage/table/fsm/", "./replication/backup/"])
         return
-    logs = ctx.design("MC_Converge", "MC_Converge_quick.cfg" if q else "MC_Converge_thorough.cfg", sample=60 if q else 1500)
+    logs = ctx.design("MC_Converge", "MC_Converge_quick.cfg" if q else "MC_Converge_thorough.cfg", sample=60 if q else 500)
     if not ctx.gv("tlc-logs", "Trace_Table", ["table", "--mode", "convlog", "--seed", str(seed())], inputs=logs):
         return
-    n, ops = (120, 12) if q else (1500, 16)
+    n, ops = (120, 12) if q else (6000, 16)
     if not ctx.gv("random-logs", "Trace_Table", ["table", "--mode", "converge", "--seed", str(seed()), "--n", str(n), "--ops", str(ops)]):
         return
     # what the state machines of the REPOSITORY'S OWN TESTS did (engines, servers, replication workers, restores of the
@@ -379,10 +379,10 @@ def c12(ctx):
     ctx.assumptions.append("byte layout of the encoding is not demanded; relations (round trip, injectivity, order, bookkeeping keys above all user keys) are checked on bytes produced by the real key.Encoder; isolation of bookkeeping keys is additionally observed behaviourally (extreme bounds, then index lookups) on the real FSM")
     q = ctx.quick
     ctx.design("MC_KeyEnc", "MC_KeyEnc.cfg")
-    if not ctx.gv("codec-pairs", "Trace_KeyEnc", ["keyenc", "--seed", str(seed()), "--n", str(12 if q else 120)]):
+    if not ctx.gv("codec-pairs", "Trace_KeyEnc", ["keyenc", "--seed", str(seed()), "--n", str(12 if q else 600)]):
         return
     # long keys (1018..1024 bytes, 0xFF heavy), keys spelled like the bookkeeping keys, extreme bounds on the real FSM
-    n, ops = (40, 40) if q else (400, 60)
+    n, ops = (40, 40) if q else (2000, 60)
     ctx.gv("long-key-histories", "Trace_Table", ["table", "--mode", "hist", "--class", "1", "--seed", str(seed()), "--n", str(n), "--ops", str(ops)])
 
 
@@ -394,7 +394,7 @@ def c13(ctx):
     logs = ctx.design("MC_MetaKV", "MC_MetaKV_quick.cfg" if q else "MC_MetaKV_thorough.cfg", sample=400 if q else 4000)
     if not ctx.gv("tlc-logs", "Trace_MetaKV", ["metakv", "--mode", "convlog", "--seed", str(seed())], inputs=logs):
         return
-    n, ops = (150, 25) if q else (2000, 40)
+    n, ops = (150, 25) if q else (8000, 40)
     if not ctx.gv("random-logs", "Trace_MetaKV", ["metakv", "--mode", "lfsm", "--seed", str(seed()), "--n", str(n), "--ops", str(ops)]):
         return
     n, ops = (5, 40) if q else (40, 120)
@@ -418,11 +418,11 @@ def c15(ctx):
     if not q:
         ctx.design("LeaseU", "MC_LeaseU.cfg")
     ctx.design("Lease", "MC_Lease_quick.cfg")
-    beh = ctx.generate("Lease", "MC_Lease_gen.cfg", num=1500 if q else 30000, depth=16)
+    beh = ctx.generate("Lease", "MC_Lease_gen.cfg", num=1500 if q else 80000, depth=16)
     if not ctx.gv("tlc-schedules", "Trace_Lease", ["lease"], inputs=beh):
         return
     # racing requests whose compare-and-set proposals reach the metadata state machine as ONE apply batch
-    ctx.gv("batched-races", "Trace_Lease", ["lease", "--races", str(150 if q else 3000), "--seed", str(seed())], racy=True)
+    ctx.gv("batched-races", "Trace_Lease", ["lease", "--races", str(150 if q else 10000), "--seed", str(seed())], racy=True)
 
 
 @check("C14")
@@ -459,10 +459,10 @@ def c19(ctx):
                               theorem="Spec => [](\\A n : IsJoin(view[n], delivered[n])), and a set has exactly one join")
     log("(D) tlapm ShardViewU: all %d obligations proved in %.1fs" % (n, wall))
     ctx.design("MC_ShardView", "MC_ShardView_quick.cfg" if q else "MC_ShardView_thorough.cfg")
-    beh = ctx.generate("MC_ShardView", "MC_ShardView_gen.cfg", num=600 if q else 10000, depth=8)
+    beh = ctx.generate("MC_ShardView", "MC_ShardView_gen.cfg", num=600 if q else 40000, depth=8)
     if not ctx.gv("tlc-deliveries", "Trace_ShardView", ["shardview", "--seed", str(seed())], inputs=beh):
         return
-    n, ops = (60, 30) if q else (800, 60)
+    n, ops = (60, 30) if q else (4000, 60)
     ctx.gv("random-deliveries", "Trace_ShardView", ["shardview", "--seed", str(seed()), "--n", str(n), "--ops", str(ops)])
 
 
@@ -491,7 +491,7 @@ def c06(ctx):
                         "where a size limit cuts an answer is not pinned; only contiguity, labels, bounds, the special answers and 'at least one entry' are"]
     q = ctx.quick
     ctx.design("MC_LogReader", "MC_LogReader_quick.cfg" if q else "MC_LogReader_thorough.cfg")
-    beh = ctx.generate("MC_LogReader", "MC_LogReader_gen.cfg", num=800 if q else 15000, depth=16)
+    beh = ctx.generate("MC_LogReader", "MC_LogReader_gen.cfg", num=800 if q else 40000, depth=16)
     if not ctx.gv("tlc-schedules", "Trace_LogReader", ["logreader", "--seed", str(seed())], inputs=beh):
         return
     # adversarial schedules: every behaviour (<= 7 steps, 2 sessions) on which the model of the PINNED commit
@@ -502,7 +502,7 @@ def c06(ctx):
     # end to end: a real engine (real Raft log and compaction, LogCompacted through the engine's event dispatcher, cache
     # sizes 0/4/64/1000, message limits) behind the real LogServer; sequential, so every call's applied index and
     # compaction point are exact; some entries carry a leader index of their own inside the command
-    ctx.gv("engine-log-streams", "Trace_LogReader", ["logengine", "--seed", str(seed()), "--n", str(6 if q else 80)])
+    ctx.gv("engine-log-streams", "Trace_LogReader", ["logengine", "--seed", str(seed()), "--n", str(6 if q else 250)])
 
 
 @check("C07")
@@ -538,7 +538,7 @@ def c04(ctx):
     ctx.assumptions += DISK_ASSUME + TABLE_ASSUME
     q = ctx.quick
     ctx.design("TableDisk", "MC_TableDisk_quick.cfg" if q else "MC_TableDisk_thorough.cfg")
-    n = 25 if q else 400
+    n = 25 if q else 1500
     if not ctx.gv("crash-points", "Trace_Table", ["disk", "--mode", "crash", "--seed", str(seed()), "--n", str(n)]):
         return
     # an apply batch of 27 MiB whose entries read inside the batch: memtable rotations / flushes fall inside FSM.Update
@@ -556,14 +556,14 @@ def c08(ctx):
     ctx.design("TableDisk", "MC_TableDisk_quick.cfg" if q else "MC_TableDisk_thorough.cfg")
     ctx.design("MC_Converge", "MC_Converge_quick.cfg")
     # faithful + point-in-time + cross-format: snapshot transfers between real replicas with writes between prepare and save
-    n, ops = (120, 14) if q else (1500, 18)
+    n, ops = (120, 14) if q else (6000, 18)
     if not ctx.gv("snapshot-transfers", "Trace_Table", ["table", "--mode", "converge", "--seed", str(seed() + 17), "--n", str(n), "--ops", str(ops)]):
         return
     # interrupted installs: stop signal at many byte positions of both formats; lazy read across an install (child process)
-    if not ctx.gv("stopped-installs", "Trace_Table", ["disk", "--mode", "install", "--seed", str(seed()), "--n", str(8 if q else 80)]):
+    if not ctx.gv("stopped-installs", "Trace_Table", ["disk", "--mode", "install", "--seed", str(seed()), "--n", str(8 if q else 250)]):
         return
     # crashes at every file-system operation of scenarios that contain a snapshot install
-    ctx.gv("crash-points", "Trace_Table", ["disk", "--mode", "crash", "--seed", str(seed() + 5), "--n", str(15 if q else 300)])
+    ctx.gv("crash-points", "Trace_Table", ["disk", "--mode", "crash", "--seed", str(seed() + 5), "--n", str(15 if q else 1000)])
 
 
 @check("C10")
@@ -573,7 +573,7 @@ def c10(ctx):
                         "call order is taken from one process-wide sequence counter read at invocation and at return"]
     q = ctx.quick
     ctx.design("Group", "MC_Group_quick.cfg" if q else "MC_Group_thorough.cfg")
-    n, ops = (8, 30) if q else (120, 60)
+    n, ops = (8, 30) if q else (300, 60)
     ctx.gv("three-node-histories", "Trace_Group", ["group", "--seed", str(seed()), "--n", str(n), "--ops", str(ops)], racy=True)
 
 
@@ -608,7 +608,7 @@ def c16(ctx):
     ctx.notes["request_classes"] = len(cases)
     ctx.notes["distinct_nontrivial"] = len(set(cases))
     ctx.notes["rule"] = "one case per request class of MC_Validate (all distinct by construction) plus seeded mutated wire messages; non-trivial = every class exercises at least one validation branch or the success path"
-    ctx.gv("request-classes", "Trace_Validate", ["api", "--seed", str(seed()), "--fuzz", str(300 if q else 3000)], inputs=cases)
+    ctx.gv("request-classes", "Trace_Validate", ["api", "--seed", str(seed()), "--fuzz", str(300 if q else 30000)], inputs=cases)
 
 
 @check("C17")
@@ -630,9 +630,9 @@ def c18(ctx):
                         "records and messages are compared by (length, FNV-64a)"]
     q = ctx.quick
     ctx.design("Stream", "MC_Stream.cfg")
-    n = 12 if q else 150
+    n = 12 if q else 400
     ctx.notes["rule"] = "framing behaviours: 1-400 records of 0 B..300 KB (sizes around the 64 KiB snappy block), file read-back and real gRPC shipping with chunk limits 1..1 MiB and each registered compressor; codec: 12 message shapes x 3 rounds + 200 recycled-object marshals; compressors: 32 goroutines x rounds per compressor"
-    if not ctx.gv("framing-codec-compressors", "Trace_Stream", ["stream", "--seed", str(seed()), "--n", str(n), "--rounds", str(60 if q else 600)], racy=True):
+    if not ctx.gv("framing-codec-compressors", "Trace_Stream", ["stream", "--seed", str(seed()), "--n", str(n), "--rounds", str(60 if q else 1500)], racy=True):
         return
     # commands as they leave the leader on the replication stream (real engine, real LogServer): each IS the logged one
     # (type, key, presence and value of the range end, own label) - also after range deletes went through the same objects
